@@ -438,6 +438,29 @@ func instrumentPackage(p *packages.Package, simPath string, callable *types.Inte
 			}
 		}
 	}
+	// the initialiser expressions as they are NOW in the syntax tree (the rewrite may
+	// have replaced the very node types.Info.InitOrder still points to)
+	type specAt struct {
+		vs  *ast.ValueSpec
+		idx int
+	}
+	specOf := map[types.Object]specAt{}
+	for _, file := range p.Syntax {
+		for _, d := range file.Decls {
+			gd, ok := d.(*ast.GenDecl)
+			if !ok || gd.Tok != token.VAR {
+				continue
+			}
+			for _, sp := range gd.Specs {
+				vs := sp.(*ast.ValueSpec)
+				for i, nm := range vs.Names {
+					if obj := info.Defs[nm]; obj != nil {
+						specOf[obj] = specAt{vs, i}
+					}
+				}
+			}
+		}
+	}
 	for _, ini := range info.InitOrder {
 		var lhs []string
 		all := true
@@ -456,7 +479,15 @@ func instrumentPackage(p *packages.Package, simPath string, callable *types.Inte
 		}
 		fn := fmt.Sprintf("verifInit%d", n)
 		n++
-		src := fmt.Sprintf("func %s() { %s = %s }", fn, strings.Join(lhs, ", "), nodeString(p.Fset, ini.Rhs))
+		rhs := ini.Rhs
+		if sa, ok := specOf[ini.Lhs[0]]; ok && len(sa.vs.Values) > 0 {
+			if len(sa.vs.Values) == len(sa.vs.Names) {
+				rhs = sa.vs.Values[sa.idx]
+			} else {
+				rhs = sa.vs.Values[0]
+			}
+		}
+		src := fmt.Sprintf("func %s() { %s = %s }", fn, strings.Join(lhs, ", "), nodeString(p.Fset, rhs))
 		pieces[file] = append(pieces[file], src)
 		calls = append(calls, fn)
 		for _, l := range lhs {
